@@ -127,7 +127,7 @@ theorem Core.value_plain {P : Prims} {V : St → List Val} (hR : Rec P V) {s s2 
       s'.regs.n031031 = s.regs.n031031 := by
   obtain ⟨v, hv⟩ := stValue_grow hR _ _ _ _ h3
   obtain ⟨sd, sl, sr⟩ := stValue_ok hR.quiet h3
-  obtain ⟨qd, qv⟩ := stQa_shape hR e s s2 h2
+  obtain ⟨qd, qv, _⟩ := stQa_shape hR e s s2 h2
   have qr := stQa_regs e s s2 h2
   have qo := stQa_ok h2
   obtain ⟨f1, f2, f3, f5⟩ := plain_facts e v he
@@ -233,7 +233,7 @@ theorem Core.marker_elem {P : Prims} {V : St → List Val} (hR : Rec P V) {s s' 
       simp only [h2] at h
       obtain ⟨v, hv⟩ := stValue_grow hR _ _ _ _ h
       obtain ⟨sd, sl, sr⟩ := stValue_ok hR.quiet h
-      obtain ⟨qd, qv⟩ := stQa_shape hR e' s3 s4 h2
+      obtain ⟨qd, qv, _⟩ := stQa_shape hR e' s3 s4 h2
       have hV2 : V (addLink (s.setRegs fun r => { r with bmIter := some rest }) owner) = V s := by
         rw [hR.addLink, hR.setRegs]
       obtain ⟨f1, f2, f3, f5, f6⟩ := marker_facts op e' v
